@@ -303,6 +303,10 @@ def classify(out, workload, block, mode, cfg=None):
             low_equal = (a & ((1 << w) - 1)) == (v & ((1 << w) - 1)) if w > 1 else (a == int(v != 0))
             fields = dict(block=block, relation='simulator_matches_low_bits_of_v' if (low_equal and m['simulator'] == 1 and m['verilog'] == 0) else 'other')
             return 'equalconstant_out_of_range', fields
+    if block == 'DualPortSynchronousMemory' and isinstance(cfg, (tuple, list)) and len(cfg) == 5 and len(set(cfg[1:])) > 1:
+        # mechanism: the hand-written body sizes the memory array and both read registers with one width (port a's read data), the
+        # simulator keeps whatever was written and shows it on each port at that port's width
+        return 'dualport_memory_ports_of_different_widths', dict(block=block, clause='data nets of different widths')
     return 'c01_output_mismatch', fields
 
 
@@ -494,7 +498,11 @@ def _specials(run, tier, seed, shard, deadline):
         if time.time() > deadline or run.too_many:
             break
         rnd = rng(seed, 'c01-special', label)
-        des = special_design(label, f, seq)
+        try:
+            des = special_design(label, f, seq)
+        except Exception:
+            run.count('special_refused_at_construction')      # e.g. Sign asserts a 1-bit flag: refusing is fine
+            continue
         n = 64 if tier == 'quick' else 300
         vecs = cosim.gen_control_vectors(des.ins, rnd, n) if seq else cosim.gen_vectors(des.ins, rnd, n, exhaustive_bits=10)
         if label.startswith('UARTMsgGenerator'):
